@@ -19,8 +19,11 @@ impl Engine for OverlapEngine {
     fn step(&mut self, toks: &[&str], out: &mut Vec<String>) {
         match toks {
             // run PARK_MS GAP_MS [after]
-            ["run", park, gap] | ["run", park, gap, "after"] => {
-                let late = toks.len() == 4;
+            ["run", park, gap, extra @ ..] => {
+                // optional: `after` (the stall follows the re-registration), `timeout=MS` (the client's
+                // connection_timeout - which is about the handshake only)
+                let late = extra.contains(&"after");
+                let conn_timeout: Option<u64> = extra.iter().find_map(|e| e.strip_prefix("timeout=")).and_then(|v| v.parse().ok());
                 let (park, gap): (u64, u64) = match (park.parse(), gap.parse()) {
                     (Ok(a), Ok(b)) => (a, b),
                     _ => return out.push("bad-op".into()),
@@ -40,7 +43,7 @@ impl Engine for OverlapEngine {
                 let (tx, rx) = mpsc::channel::<String>();
                 let peer2 = peer.clone();
                 std::thread::spawn(move || {
-                    let mut conn = match Connection::insecure_open_stream(stream, ConnectionOptions::<Auth>::default().heartbeat(0), ConnectionTuning::default()) {
+                    let mut conn = match Connection::insecure_open_stream(stream, ConnectionOptions::<Auth>::default().heartbeat(0).connection_timeout(conn_timeout.map(Duration::from_millis)), ConnectionTuning::default()) {
                         Ok(c) => c,
                         Err(e) => {
                             let _ = tx.send(format!("open err {}", err_token(&e)));
